@@ -156,7 +156,7 @@ def trimmed(cs):
 
 
 def same_poly(cs, want):
-    a, b = trimmed([sp.expand(x) for x in cs]), trimmed([sp.expand(x) for x in want])
+    a, b = trimmed([cyc_reduce(sp.expand(x)) for x in cs]), trimmed([cyc_reduce(sp.expand(x)) for x in want])
     return len(a) == len(b) and all(sym.is_zero(x - y) for x, y in zip(a, b))
 
 
@@ -175,3 +175,46 @@ def timed(fn, seconds=20, default=None):
     finally:
         signal.setitimer(signal.ITIMER_REAL, 0)
         signal.signal(signal.SIGALRM, old)
+
+
+# ---- exact arithmetic with 16th roots of unity: the quotient ring Q(i)[c]/(8c⁴ − 8c² + 1), c = cos(π/8) --------------------------------
+# sympy turns cos(π/8) into nested radicals whose products it simplifies slowly and unreliably; all cosines and sines of multiples of π/8 are
+# Chebyshev polynomials in c, and 8c⁴ − 8c² + 1 is the minimal polynomial of c (irreducible over Q(i)), so remainders modulo it are normal forms.
+CYC = sp.Symbol("cos_pi_8", real=True)
+CYC_MIN = 8 * CYC ** 4 - 8 * CYC ** 2 + 1
+
+
+def cyc_reduce(e):
+    e = sp.sympify(e)
+    if not e.has(CYC):
+        return e
+    return sp.expand(sp.rem(sp.expand(e), CYC_MIN, CYC))
+
+
+def _cos_k(k):
+    """cos(kπ/8) as a reduced polynomial in c."""
+    k %= 16
+    if k > 8:
+        k = 16 - k
+    return cyc_reduce(sp.chebyshevt(k, CYC))
+
+
+class CycloInterp(vecint.VInterp):
+    """VInterp in which cos/sin of multiples of π/8 are elements of Q[c]/(8c⁴ − 8c² + 1) and products are reduced."""
+    def ev_MCall_numeric(self, n, rv):
+        if n["name"] in ("cos", "sin") and not n["args"]:
+            x = self.num(rv, n)
+            try:
+                q = sp.nsimplify(x / sp.pi * 8)
+            except Exception:
+                q = None
+            if q is not None and getattr(q, "is_Integer", False):
+                k = int(q)
+                return _cos_k(k) if n["name"] == "cos" else _cos_k(k - 4)
+        return vecint.VInterp.ev_MCall_numeric(self, n, rv)
+
+    def binop(self, op, a, b, n):
+        v = vecint.VInterp.binop(self, op, a, b, n)
+        if op == "Mul" and hasattr(v, "has") and v.has(CYC):
+            return cyc_reduce(v)
+        return v
